@@ -196,7 +196,20 @@ def judge(line, obs, orc):
             return "bytes written to a connection that never completed its handshake"
         return None
     # (c) + (d): once the end has been observed
-    error_seen = nerr >= 1 if t != "REQ" else any(r.startswith(("r=err:NoMessage", "r=err:Codec")) for r in recvs)
+    if t != "REQ":
+        error_seen = nerr >= 1
+    else:
+        # REQ: a recv that follows an accepted request and returns an error (of whatever class) has observed the end
+        # of the connection the request went to; an out-of-turn recv (no request outstanding) has observed nothing
+        error_seen, owing = False, False
+        for op, tk in po:
+            if op[0] == "send" and tk == "s=ok":
+                owing = True
+            elif op[0] == "recv":
+                if owing and tk.startswith("r=err"):
+                    error_seen = True
+                if not tk.startswith("r=pending"):
+                    owing = False
     send_err = any(tk.startswith("s=err:Codec") for op, tk in sends)
     # PUB/XPUB publish with try_send, which ignores the result of the flush: a write error is only
     # seen once the buffer has reached the high-water mark, so a broken writer alone is not "observed"
